@@ -16,6 +16,9 @@ What is generated (all sizes small, names drawn from tiny pools so that they col
   * `rep(n, i)` with n in 0..3 (literal, 'n' parameter, outer iterator, small arithmetic), the iterator used in
     arithmetic in the arguments, rep inside rep with the same iterator name, iterator named like a parameter (shadowing)
   * `$`, wflip, pad, segment, reserve
+  * directed families: offset chains `((x + BIG) - c1) - c2 ...` over a parameter / local / label inside a body, and an
+    argument forwarded through 2-4 macro levels each applying `+ c`, `- c`, `* c`, `<< c`, `^ c` (last level also
+    `& c`, `c - x`), the base being a forward / backward label, a constant, a parameter or a local of the caller
   * directed family: `rep` whose count evaluates to 0 (literal, constant, macro parameter, comparison) of a callee that
     is NOT defined (unknown name, or a defined name with another arity), at top level, in namespaces, inside macros,
     inside an outer rep: it contributes nothing and the program must assemble
@@ -168,6 +171,12 @@ class Gen:
                 return rng.choice([0, 1, 2, 3, 5, 7, 64, 128, 200, 0x100])
             leaf = self.name_leaf(sc, allow_dollar)
             return leaf if leaf is not None else rng.randrange(1, 300)
+        if r < 0.50 and depth == 0:
+            # an offset chain over one name: ((x + BIG) - c1) - c2 ..., same operator twice in a row on purpose
+            leaf = self.name_leaf(sc, False, kinds=('v', 'd', 'l', 'g'))
+            if leaf is not None:
+                self.prog.tags.add('offset-chain')
+                return self.offset_chain(leaf, rng.choice([2, 2, 3, 4]))
         if r < 0.52:
             a = self.value(sc, depth + 1, allow_dollar)
             return a if is_lit(a) else ('op', '#', [a])
@@ -190,6 +199,84 @@ class Gen:
         else:
             b = self.value(sc, depth + 1, allow_dollar)
         return mk_op(rng, op, [a, b])
+
+    def chain_op(self, e, last=False):
+        """one step of an offset chain applied to the (symbolic) expression e"""
+        rng = self.rng
+        w = self.prog.w
+        c = rng.choice([0, 1, 2, w, 2 * w, 64, 128, 192])
+        kinds = ['-', '-', '-', '+', '+', '*', '<<', '^']
+        if last:
+            kinds += ['&', 'c-']
+        k = rng.choice(kinds)
+        if k == '*':
+            return ('op', '*', [e, rng.choice([1, 2])])
+        if k == '<<':
+            return ('op', '<<', [e, rng.choice([0, 1])])
+        if k == '&':
+            return ('op', '&', [e, rng.choice([0xfff, 0xff00, w - 1])])
+        if k == 'c-':
+            return ('op', '-', [1 << 22 if w >= 32 else 60000, e])
+        return ('op', k, [e, c])
+
+    def offset_chain(self, base, n):
+        e = ('op', '+', [base, 1 << 14])           # keeps the value positive under the subtractions that follow
+        for i in range(n):
+            e = self.chain_op(e, last=(i == n - 1))
+        return e
+
+    # -- an argument forwarded through several macro levels, each applying one operator to it
+    def chain_family(self):
+        """-> main statements [(ns, stmt)]; defines the macros fw<depth>_<j> in self.prog.macros"""
+        rng = self.rng
+        prog = self.prog
+        prog.tags.add('forwarded-argument-chain')
+        out = []
+        tops = []
+        for fam in range(rng.choice([1, 2])):
+            levels = rng.choice([2, 3, 4])
+            below = None
+            for j in range(levels):
+                ns = rng.choice(self.namespaces)
+                base = f'fw{fam}l{j}'
+                full = '.'.join(ns + [base])
+                x = rng.choice(IDS)
+                arg = self.chain_op(('n', x), last=(j == 0))
+                if below is None:
+                    body = [rng.choice([{'t': 'fj', 'f': None, 'j': arg}, {'t': 'fj', 'f': arg, 'j': None},
+                                        {'t': 'wflip', 'a': arg, 'v': 1, 'r': None}])]
+                else:
+                    body = [{'t': 'call', 'name': spell(rng, below['full'], ns, prog.tags), 'args': [arg]}]
+                    if rng.random() < 0.4:
+                        body.append({'t': 'fj', 'f': None, 'j': self.chain_op(self.chain_op(('n', x)))})
+                m = {'ns': list(ns), 'base': base, 'full': full, 'params': [x], 'kinds': ['v'], 'locals': [], 'body': body,
+                     'globals': [], 'externs': [], 'level': 99}
+                prog.macros[(full, 1)] = m
+                below = m
+            tops.append(below)
+        # a wrapper that forwards its own parameter and its own local label
+        ns = rng.choice(self.namespaces)
+        y, l = rng.sample(IDS, 2)
+        t = rng.choice(tops)
+        wrap = {'ns': list(ns), 'base': 'fww', 'full': '.'.join(ns + ['fww']), 'params': [y], 'kinds': ['v'], 'locals': [l],
+                'body': [{'t': 'call', 'name': spell(rng, t['full'], ns, prog.tags), 'args': [('op', '+', [('n', y), 1 << 14])]},
+                         {'t': 'label', 'name': l},
+                         {'t': 'call', 'name': spell(rng, t['full'], ns, prog.tags), 'args': [('op', '+', [('n', l), 1 << 14])]}],
+                'globals': [], 'externs': [], 'level': 99}
+        prog.macros[(wrap['full'], 1)] = wrap
+        for _ in range(rng.choice([2, 3, 4])):
+            ns = rng.choice(self.namespaces)
+            t = rng.choice(tops + [wrap])
+            r = rng.random()
+            if r < 0.7 and self.globals:
+                g = rng.choice(self.globals)                       # declared somewhere: before or after this call
+                base = ('op', '+', [('n', spell(rng, g, ns, prog.tags)), 1 << 14])
+            elif r < 0.85:
+                base = rng.choice([1 << 14, 20000, 4096 + 64])
+            else:
+                base = ('op', '+', [('n', spell(rng, rng.choice(self.globals), ns, prog.tags)), 1 << 15]) if self.globals else 1 << 14
+            out.append((ns, {'t': 'call', 'name': spell(rng, t['full'], ns, prog.tags), 'args': [base]}))
+        return out
 
     def count(self, sc):
         """a small count: literal 0..3, an 'n' parameter, the iterator, +1 / # of those"""
@@ -560,6 +647,9 @@ class Gen:
             ns = rng.choice(self.namespaces)
             stmts.insert(rng.randrange(len(stmts) + 1),
                          (ns, {'t': 'call', 'name': spell(rng, m['full'], ns, prog.tags), 'args': []}))
+        if rng.random() < 0.3:
+            for ns_, st in self.chain_family():
+                stmts.insert(rng.randrange(len(stmts) + 1), (ns_, st))
         if rng.random() < 0.2:
             for ns_, st in self.rep0_family():
                 stmts.insert(rng.randrange(len(stmts) + 1), (ns_, st))
